@@ -23,6 +23,7 @@ package alpm
 // ---- constructors: value xor error (C06); the fact is structural (untagged) because callers rely on it
 
 //@ func (*Ecosystem).NewVersion
+//@   loop 1 invariant i < len(versionPart)
 //@   ensures xor: (result0 != nil) == (result1 == nil)
 
 //@ func (*Ecosystem).NewVersionRange
